@@ -14,7 +14,8 @@ RULE = ("two generated shots fired one after the other on the same calculator (s
         "lofted launches changing altitude by hundreds of feet, winds, cant; requests with and without extra data and "
         "time_step, tight limits so that some runs end in RangeError; every returned row (interpolated, time, event, "
         "terminal, appended) is checked; non-trivial = (look != 0 or altitude change > 100 ft or spin drift present) and "
-        ">= 3 rows of >= 2 kinds; distinct = distinct case dicts")
+        ">= 3 rows of >= 2 kinds; distinct = distinct case dicts; in 4 of 7 cases the calculator under test has a past (build.calculator prior: extra-data fire / "
+        "subsonic fire / zeroing / RangeError for another fixed shot)")
 ASSUMPTIONS = ["speed of sound reference: ISA gamma*R*T with the station temperature and the 6.5 K/km lapse; inside 30 ft (+ one step) "
                "of the station altitude the station's own value is equally admissible; 2e-5 relative (6-digit model constants, one-step lag of terminal rows)",
                "energy compared with the kinetic energy m v^2 / 2 within 1e-3 (any conventional g-constant passes)",
